@@ -41,16 +41,27 @@ def canon(v, depth=0):
         if v.dtype == object:
             return ['objarr', list(v.shape), [canon(x, depth + 1) for x in v.ravel().tolist()]] \
                 if v.size <= 5000 else ['objarr-big', list(v.shape)]
+        # values are compared exactly after widening (float32 -> float64, intN -> int64 lose
+        # nothing): the precision a path happens to return is not part of the value
+        if v.dtype.kind == 'f':
+            v = v.astype(np.float64)
+        elif v.dtype.kind in 'iu':
+            v = v.astype(np.int64)
         a = np.ascontiguousarray(v)
         return ['arr', list(a.shape), str(a.dtype), h(a.tobytes())]
     if sp.issparse(v):
         c = sp.coo_matrix(v)
         c.sum_duplicates()
         order = np.lexsort((c.col, c.row))
-        return ['sparse', list(c.shape), str(c.dtype),
+        dat = c.data[order]
+        if dat.dtype.kind == 'f':
+            dat = dat.astype(np.float64)
+        elif dat.dtype.kind in 'iu':
+            dat = dat.astype(np.int64)
+        return ['sparse', list(c.shape), str(dat.dtype),
                 h(np.ascontiguousarray(c.row[order]).astype(np.int64).tobytes()
                   + np.ascontiguousarray(c.col[order]).astype(np.int64).tobytes()
-                  + np.ascontiguousarray(c.data[order]).tobytes())]
+                  + np.ascontiguousarray(dat).tobytes())]
     if isinstance(v, (list, tuple)):
         return ['seq', [canon(x, depth + 1) for x in v]]
     if isinstance(v, dict):
@@ -307,14 +318,21 @@ def run_history(hist, workdir, hid):
             rec['error'] = type(ex).__name__ + ': ' + str(ex)[:200]
             rec['trace'] = traceback.format_exc()[-600:]
         out.append(rec)
-    # ---- phase 2: references
+    # ---- phase 2: references (one evaluation per (object, call) while no effect intervened)
+    epoch = {}
+    memo = {}
     for item in todo:
         clear_all_caches()
         kind, rec, raw, op = item[0], item[1], item[2], item[3]
         try:
+            if kind != 'query':
+                epoch[op['o']] = epoch.get(op['o'], 0) + 1
             if kind == 'query':
                 obs, obs_b = item[4], item[5]
-                exp, exp_b = call(raw, op['q'], op.get('kwargs', {}))
+                mkey = (op['o'], epoch.get(op['o'], 0), op['q'], json.dumps(op.get('kwargs', {}), sort_keys=True))
+                if mkey not in memo:
+                    memo[mkey] = call(raw, op['q'], op.get('kwargs', {}))
+                exp, exp_b = memo[mkey]
                 rec['equal'] = exp == obs
                 if exp != obs:
                     rec['expected'] = {'canon': exp if exp[0] == 'raise' else exp[1][:4], 'brief': exp_b}
